@@ -272,11 +272,17 @@ def r5(ctx, R):
     osp = ctx.func("UserCellsImpl.on_set_property")
     R.inst("UserCellsImpl.on_set_property: the formula that is installed is built here (NULL_FORMULA or a constructor call)")
     for st, t in q.attr_writes(osp, attr="formula", recv="self"):
-        vals = []
-        if isinstance(st.value, ast.Name):
-            vals = [v for x in assigned_value(osp, st.value.id) for v, _ in q.arms(osp, x)]
-        else:
-            vals = [st.value]
+        def _vals(e, depth=4):
+            # values a local can hold: its assignments, conditional expressions distributed, locals chased
+            out = []
+            for v, _ in q.arms(osp, e):
+                if isinstance(v, ast.Name) and depth and assigned_value(osp, v.id):
+                    for x in assigned_value(osp, v.id):
+                        out.extend(_vals(x, depth - 1))
+                else:
+                    out.append(v)
+            return out
+        vals = _vals(st.value)
         for v in vals:
             v = q.origin(osp, v)
             if norm(v) == "NULL_FORMULA":
